@@ -63,6 +63,36 @@ TRSOf(G, Doms, y, x, Pe, I, S, v) ==
 
 TRSORef(G, Doms, x, y) == TRSOf(G, Doms, y, x, BaseJoint(G.n, {}, 0), {}, 0, G.n)
 
+\* Which lines the reference passes through, and where: the set of <<line, in a source domain, after a line 10 of the
+\* same domain>> over the whole recursion (structure only, same case analysis as TRSOf).  The generators use it to find
+\* the rare inputs on which, e.g., line 2 runs inside a source domain on a distribution that line 10 produced.
+RECURSIVE TRSOSteps(_, _, _, _, _, _, _, _)
+TRSOSteps(G, Doms, y, x, I, S, v, after10) ==
+  LET Gv  == SubG(G, v)
+      AnY == An(Gv, y)
+      W   == (v \ x) \ An(RemoveIn(Gv, x), y)
+      GX  == SubG(Gv, v \ x)
+      CX  == Districts(GX)
+      here(l) == {<<l, S > 0, after10>>}
+  IN IF x = {} THEN here(1)
+     ELSE IF v \ AnY # {} THEN here(2) \cup TRSOSteps(G, Doms, y, x \cap AnY, I, S, AnY, after10)
+     ELSE IF W # {} THEN here(3) \cup TRSOSteps(G, Doms, y, x \cup W, I, S, v, after10)
+     ELSE IF Cardinality(CX) > 1 THEN
+        here(4) \cup UNION {TRSOSteps(G, Doms, District(GX, m), v \ District(GX, m), I, S, v, after10) : m \in {Min(C) : C \in CX}}
+     ELSE LET C == Pick(CX)
+              usable == IF I = {} THEN {i \in DOMAIN Doms : Doms[i].z \cap x # {} /\ SelSeparated(G, Doms[i].tn, v, x, y)} ELSE {}
+              tryDom(i) == LET zi == Doms[i].z \cap x IN
+                           TRSOf(G, Doms, y, x \ Doms[i].z, BaseJoint(v \ zi, zi, i), zi, i, v \ zi)
+              good == {i \in usable : ~IsFail(tryDom(i))}
+          IN IF good # {} THEN LET i == Min(good)  zi == Doms[i].z \cap x IN
+                               here(6) \cup TRSOSteps(G, Doms, y, x \ Doms[i].z, zi, i, v \ zi, FALSE)
+             ELSE IF Districts(Gv) = {v} THEN here(11)
+             ELSE IF C \in Districts(Gv) THEN here(9)
+             ELSE LET Cp == Pick({D \in Districts(Gv) : C \subseteq D}) IN
+                  IF I # {} /\ S > 0 /\ Pillow(Gv, Cp) \cap Doms[S].tn # {} THEN here(11)
+                  ELSE here(10) \cup TRSOSteps(G, Doms, y, x \cap Cp, I, S, Cp, TRUE)
+TRSOStepsRef(G, Doms, x, y) == TRSOSteps(G, Doms, y, x, {}, 0, G.n, FALSE)
+
 \* ---------------------------------------------------------------- machine
 CONSTANTS Family, RndN, RndK, Seeds, MaxDomains
 VARIABLES q, phase, res, cmp
@@ -102,4 +132,20 @@ ReducesToID == (Done /\ q.doms = <<>>) => (IsFail(res) = ~TianOK(q.g, q.x, q.y))
 Vocab == (Done /\ ~IsFail(res)) => TransportVocab(res, q.g.n, [p \in DOMAIN q.doms |-> q.doms[p].z])
 \* surrogates help: some query that ID refuses is answered with a source domain (non-vacuity, expected to FAIL as an invariant)
 NeverHelps == (Done /\ q.doms # <<>> /\ ~TianOK(q.g, q.x, q.y)) => IsFail(res)
+
+\* ---------------------------------------------------------------- generator of rare-path problems
+\* Topologically numbered 4-node ADMGs (at most 3 bidirected edges) x single-outcome queries x one source domain with one surrogate outcome whose
+\* experiments meet the treatments: the problems on which the reference takes another step (lines 2, 3, 4 or 10 again)
+\* inside a source domain after a line 10 of that domain.  One line per graph that has any.
+SparseOrdered(N) == {MkG(1..N, d, b) : d \in SUBSET FwdPairs(N), b \in {x \in SUBSET UPairs(N) : Cardinality(x) <= 3}}
+RareSteps(st) == {s \in st : s[2] /\ s[3] /\ s[1] \in {2, 3, 4, 10}}
+RareProblems(G) ==
+  UNION {{[x |-> p[1], y |-> p[2], z |-> c[1], w |-> c[2], steps |-> RareSteps(TRSOStepsRef(G, <<DomOf(G, c)>>, p[1], p[2]))] :
+             c \in {cc \in DomainConfigs(G) : Cardinality(cc[2]) = 1 /\ cc[1] \cap p[1] # {}}} :
+         p \in {pp \in Queries(G) : Cardinality(pp[2]) = 1}}
+GenInit == /\ q \in {[g |-> G] : G \in SparseOrdered(4)} /\ phase = "chosen" /\ res = Fail /\ cmp = <<>>
+GenRun == /\ phase = "chosen" /\ phase' = "done" /\ UNCHANGED <<q, res, cmp>>
+          /\ LET ps == {r \in RareProblems(q.g) : r.steps # {}} IN
+             ps # {} => PrintT(<<"TRX", ToJson([g |-> [n |-> q.g.n, d |-> q.g.d, b |-> q.g.b], ps |-> ps])>>)
+GenSpec == GenInit /\ [][GenRun]_vars
 =============================================================================
